@@ -71,7 +71,10 @@ def cohort_b(kind, nf, event):
 def snapshot(model):
     if model._state is None:
         return None
-    return {k: fast_copy(v) for k, v in model.state._values.items()}
+    snap = {k: fast_copy(v) for k, v in model.state._values.items()}
+    fork = model.state._last_fork
+    snap["__fork__"] = None if fork is None else {k: fast_copy(v) for k, v in fork.items()}
+    return snap
 
 
 def classify_vars(model):
@@ -96,6 +99,11 @@ def check_snapshot(model, before, what):
     for k in transient:
         if after[k] is not None and not same(before[k], after[k]):
             raise Fail(f"{what}:data-or-latent-values-left-in-model", f"{k} holds values of this call", "unset, or exactly what it held before the call")
+    # ... nor in the pending fork of the model state (a `revert()` would bring them back)
+    fork_a, fork_b = after.get("__fork__"), before.get("__fork__") or {}
+    for k, v in (fork_a or {}).items():
+        if v is not None and not same(fork_b.get(k), v):
+            raise Fail(f"{what}:values-of-this-call-left-in-the-pending-fork-of-the-model-state", f"{k} in model.state._last_fork", "no value of this call kept anywhere in the model")
 
 
 def twin_of(model):
@@ -196,10 +204,20 @@ def do_call(model, op, ctx):
             raise Fail("estimate:individual-parameters-modified", "", "")
         return {i: est[i].copy() if hasattr(est[i], "copy") else est[i] for i in est}, None
     if name == "simulate":
-        _, seed = op
+        seed = op[1]
+        feats = list(model.features)
+        if len(op) > 2 and op[2] == "table":
+            tab = pd.DataFrame({"ID": [12, 12, 3, 3, 3, 7], "TIME": [70.5, 72.0, 66.25, 67.0, 69.5, 81.0]})
+            tab_copy = tab.copy(deep=True)
+            vp = dict(visit_type="dataframe", df_visits=tab)
+            res = model.simulate(algorithm="simulate", features=feats, visit_parameters=vp, seed=seed)
+            if not tab.equals(tab_copy) or not tab.dtypes.equals(tab_copy.dtypes) or list(tab.columns) != list(tab_copy.columns):
+                raise Fail("simulate:visit-table-modified", str(tab.dtypes.to_dict()), str(tab_copy.dtypes.to_dict()))
+            if set(vp) != {"visit_type", "df_visits"}:
+                raise Fail("simulate:visit-parameters-modified", str(sorted(vp)), "['df_visits', 'visit_type']")
+            return res.data.to_dataframe().reset_index(drop=True), None
         vp = copy.deepcopy(VISITS)
         vp_copy = copy.deepcopy(vp)
-        feats = list(model.features)
         res = model.simulate(algorithm="simulate", features=feats, visit_parameters=vp, seed=seed)
         if vp != vp_copy:
             raise Fail("simulate:visit-parameters-modified", str(vp), str(vp_copy))
@@ -316,7 +334,7 @@ def _brief(res):
 ALPHABET = [["fit", "A", 8, 0], ["personalize", "scipy_minimize", "B", 1, False], ["personalize", "mean_posterior", "B", 1, False],
             ["personalize", "mode_posterior", "B", 1, False], ["estimate", [60.0, 70.5, 66.0], 0], ["simulate", 3], ["saveload"],
             ["personalize", "scipy_minimize", "B", 1, False, "dataset"], ["personalize", "mean_posterior", "A", 1, False, "dataset"],
-            ["personalize", "mode_posterior", "B", 1, True, "df", True]]
+            ["personalize", "mode_posterior", "B", 1, True, "df", True], ["simulate", 5, "table"]]
 
 
 def histories(max_len_all=2):
@@ -329,7 +347,7 @@ def histories(max_len_all=2):
         if h[0] == 0:
             out.append(list(h))
     # Dataset objects handed over by the caller (tensors must come back untouched)
-    for a in (7, 8, 9):
+    for a in (7, 8, 9, 10):
         out.append([0, a])
         out.append([0, a, a])
     # a personalisation in between so that estimate has parameters, and fit -> perso on the SAME cohort
@@ -378,7 +396,7 @@ def gen_history(draw, kind_keys):
         st.tuples(st.just("personalize"), st.sampled_from(ALGOS), st.sampled_from(["A", "B", "B"]), st.integers(0, 99), st.booleans(),
                   st.sampled_from(["df", "data", "dataset", "dataset"]), st.booleans()).map(list),
         st.tuples(st.just("estimate"), st.lists(gen.f32(40, 95), min_size=1, max_size=4), st.just(0)).map(list),
-        st.tuples(st.just("simulate"), st.integers(0, 99)).map(list),
+        st.tuples(st.just("simulate"), st.integers(0, 99), st.sampled_from(["random", "table"])).map(list),
         st.just(["saveload"]),
         st.tuples(st.just("fit"), st.just("A"), st.integers(5, 12), st.integers(0, 99)).map(list),
     )
